@@ -6,7 +6,8 @@
    files under their names, whatever their order, also when other names are mixed in and when a text
    normalises to nothing.
    Kinds of files: "lic" ordinary license, "hdr" a <name>.header.txt file, "empty" a text that normalises to the
-   empty string (only a copyright notice), "other" a name that does not end in .txt (skipped by the archiver). *)
+   empty string (only a copyright notice), "other" a name that does not end in .txt (skipped by the archiver),
+   "twin" a file whose normalised text equals another file's (every file is a license of its own, whatever it says). *)
 EXTENDS Integers, Sequences, FiniteSets, TLC, Json, SequencesExt
 
 CONSTANTS Cands, MaxFiles      \* candidate files [name, kind]
